@@ -15,10 +15,13 @@ package main
 // outcome flip whose error class is known.
 
 import (
+	"crypto/sha256"
+	"encoding/hex"
 	"encoding/json"
 	"fmt"
 	"math/rand"
 	"os"
+	"os/exec"
 	"path/filepath"
 	"reflect"
 	"regexp"
@@ -296,7 +299,10 @@ func (g *c02Gen) service(name string, all []string, resources *c02Resources, can
 		}
 		g.shape("extra_hosts")
 	}
-	if len(resources.Networks) > 0 && g.coin(2) {
+	if g.coin(7) {
+		s.Set("network_mode", g.pick("none", "host"))
+		g.shape("network_mode")
+	} else if len(resources.Networks) > 0 && g.coin(2) {
 		if g.coin(2) {
 			var l []any
 			for _, n := range resources.Networks {
@@ -773,6 +779,49 @@ type c02LoadArgs struct {
 	Variants []map[string]string `json:"variants"` // same model, mapping declaration orders permuted (compose files only)
 	Prefix   []core.LoadReq      `json:"prefix"`   // other loads executed before, in the same process
 	N        int                 `json:"n"`
+	Fresh    bool                `json:"fresh"` // also compare with a load of the same tree made by a fresh process
+}
+
+// c02DigestArgs: load an already materialised tree in place and return digests (run in a fresh process)
+type c02DigestArgs struct {
+	Req  core.LoadReq `json:"req"`
+	Root string       `json:"root"`
+}
+
+func sha(s string) string {
+	h := sha256.Sum256([]byte(s))
+	return hex.EncodeToString(h[:8])
+}
+
+func (o c02Obs) digest() map[string]any {
+	return map[string]any{"class": o.Class, "yaml": sha(o.YAML), "json": sha(o.JSON), "yerr": o.YErr != "", "jerr": o.JErr != ""}
+}
+
+// freshDigest runs one load of the tree at root in a brand-new process (no load history at all).
+func freshDigest(req core.LoadReq, root string) (map[string]any, error) {
+	self, err := os.Executable()
+	if err != nil {
+		return nil, err
+	}
+	req.Files = nil
+	line, _ := json.Marshal(map[string]any{"id": 0, "op": "c02.loadDigest", "args": c02DigestArgs{Req: req, Root: root}})
+	cmd := exec.Command(self, "-serve")
+	cmd.Stdin = strings.NewReader(string(line) + "\n")
+	cmd.Env = append(os.Environ(), "GOMAXPROCS=2")
+	out, err := cmd.Output()
+	if err != nil {
+		return nil, err
+	}
+	for _, l := range strings.Split(string(out), "\n") {
+		var w struct {
+			ID  int            `json:"id"`
+			Out map[string]any `json:"out"`
+		}
+		if json.Unmarshal([]byte(l), &w) == nil && w.Out != nil {
+			return w.Out, nil
+		}
+	}
+	return nil, fmt.Errorf("no answer from the fresh process")
 }
 
 type c02Obs struct {
@@ -1013,7 +1062,10 @@ func init() {
 			}
 			// reference load, then the loads of *other* models in the same process and at the same paths
 			// (same file names, other contents), then the model again: the history must not show
-			ref := c02Observe(a.Req, root)
+			var ref c02Obs
+			if !a.Fresh {
+				ref = c02Observe(a.Req, root)
+			}
 			for _, p := range a.Prefix {
 				if err := write(p.Files); err != nil {
 					return map[string]any{"bad": err.Error()}
@@ -1041,9 +1093,19 @@ func init() {
 				}
 			}
 			// the repeats agree among themselves: a difference with the load made before the other loads is history
-			if d := c02Compare(ref, first, "history"); d != nil {
-				d["site"] = "history:" + fmt.Sprint(d["site"])
-				return d
+			if !a.Fresh {
+				if d := c02Compare(ref, first, "history"); d != nil {
+					d["site"] = "history:" + fmt.Sprint(d["site"])
+					return d
+				}
+			} else {
+				fd, err := freshDigest(a.Req, root)
+				if err != nil {
+					return map[string]any{"bad": "fresh process: " + err.Error()}
+				}
+				if !jsonEq(fd, first.digest()) {
+					return map[string]any{"diverge": "history", "site": "history:fresh-process", "detail": fmt.Sprintf("a fresh process gives %v, this process (after other loads) gives %v", fd, first.digest())}
+				}
 			}
 			for vi, files := range a.Variants {
 				for name, content := range files {
@@ -1091,18 +1153,31 @@ func init() {
 	})
 }
 
+func init() {
+	core.Register("c02.loadDigest", &core.CheckDef{
+		Timeout: 60 * time.Second,
+		Real: func(raw json.RawMessage) any {
+			var a c02DigestArgs
+			if err := json.Unmarshal(raw, &a); err != nil {
+				return map[string]any{"bad": err.Error()}
+			}
+			return c02Observe(a.Req, a.Root).digest()
+		},
+	})
+}
+
 func (in *c02Input) req(files map[string]string) core.LoadReq {
 	return core.LoadReq{Files: files, ConfigFiles: in.ConfigFiles, Env: in.Env, Profiles: in.Profiles, ProjectName: "c02"}
 }
 
 func runC02Oracle(ctx *core.Ctx) {
 	n := ctx.Pick(24, 400)
-	inputs := ctx.Pick(80, 600)
+	inputs := ctx.Pick(80, 500)
 	for i := 0; i < inputs; i++ {
 		in := c02GenInput(ctx.Rng, 1)
 		base := in.files(nil)
 		a := c02LoadArgs{Req: in.req(base), N: n}
-		if i%4 != 0 { // the thorough tier spends N=400 on every fourth input only, 40 on the others
+		if i%5 != 0 { // the thorough tier spends N=400 on every fifth input only, 40 on the others
 			a.N = ctx.Pick(24, 40)
 		}
 		for k := 0; k < ctx.Pick(3, 6); k++ {
@@ -1112,8 +1187,9 @@ func runC02Oracle(ctx *core.Ctx) {
 			}
 			a.Variants = append(a.Variants, v)
 		}
-		for k := ctx.Rng.Intn(3); k > 0; k-- {
-			p := c02GenInput(ctx.Rng, 0)
+		a.Fresh = i%4 == 1
+		for k := ctx.Rng.Intn(3); k > 0 || (a.Fresh && len(a.Prefix) == 0); k-- {
+			p := c02GenInput(ctx.Rng, ctx.Rng.Intn(2))
 			a.Prefix = append(a.Prefix, p.req(p.files(nil)))
 		}
 		for _, s := range in.Shapes {
